@@ -792,6 +792,7 @@ class BaseConnector:
                 if not conns:
                     # The very last connection was reclaimed: drop the key
                     del self._conns[key]
+                proto.idle = False
                 self._acquired.add(proto)
                 if self._limit_per_host:
                     self._acquired_per_host[key].add(proto)
@@ -874,6 +875,7 @@ class BaseConnector:
                 self._cleanup_closed_transports.append(transport)
             return
 
+        protocol.idle = True
         self._conns[key].append((protocol, monotonic()))
 
         if self._cleanup_handle is None:
